@@ -152,6 +152,9 @@ def h_states(ctx, pre, event, negotiated=False):
             elif pre == "closed":
                 ch.close()
                 env.drain()
+                ctx.check(t._reconfig_request is not None, "close-on-an-established-channel-requests-a-stream-reset")
+                if t._reconfig_request is None:
+                    raise sx.PathAbort()
                 sx.run(t._receive_reconfig_param(StreamResetResponseParam(response_sequence=t._reconfig_request.request_sequence, result=1)))
                 env.drain()
         ch.on("open", lambda: opens.append(1))
